@@ -175,3 +175,115 @@ package providers
 //@ func (p *SingleFlightProvider) RefreshAccessToken$1() (interface{}, error)
 //@   ensures [C16] runs_wrapped_refresh_for_this_token: called(@RefreshAccessToken#1) && arg(@RefreshAccessToken#1, 0) == old(p.provider) && arg(@RefreshAccessToken#1, 1) == old(refreshToken) && (@RefreshAccessToken#1.2 != nil ==> result.1 == @RefreshAccessToken#1.2) && (@RefreshAccessToken#1.2 == nil ==> result.1 == nil)
 //@   ensures [C16] result_carries_the_new_token: result.1 == nil ==> typeis(result.0, "*auth/providers.Response") && unbox(result.0, "*auth/providers.Response").AccessToken == @RefreshAccessToken#1.0 && unbox(result.0, "*auth/providers.Response").ExpiresIn == @RefreshAccessToken#1.1
+
+// ---- C17: the answer cache in front of a provider ---------------------------------------------------------------
+// dirAnswered / lcStored are provenance predicates (spec/prelude.spec): "the provider gave this answer to this
+// question", "this entry was stored under this key".
+//@ interface Provider.ValidateGroupMembership(email string, allowedGroups []string, accessToken string) ([]string, error)
+//@   modifies clock, elems(allowedGroups)
+//@   ensures result.1 == nil ==> dirAnswered(this.tag, this.pay, email, old(join(allowedGroups, ",")), arrof(result.0), len(result.0))
+
+//@ interface Cache.Get(key groups.CacheKey) (groups.CacheEntry, bool)
+//@   modifies nothing
+//@   ensures result.1 ==> lcStored(cacheMap(this.tag, this.pay), key.Email, key.AllowedGroups, arrof(result.0.ValidGroups), len(result.0.ValidGroups))
+
+//@ interface Cache.Set(key groups.CacheKey, val groups.CacheEntry)
+//@   modifies nothing
+
+//@ interface Cache.Purge(key groups.CacheKey)
+//@   modifies nothing
+
+// Q: the question as the cache is asked it — the user and the sorted, comma-joined group list.
+// The precondition is the cache's data invariant: everything ever stored in this GroupCache's cache is an answer
+// its provider gave to the key's question. It is maintained by the sink on Set below, the only Set site in the
+// module (checked: callers[...]); the cache is private to the GroupCache (constructed in NewGroupCache).
+//@ func (p *GroupCache) ValidateGroupMembership(email string, allowedGroups []string, accessToken string) ([]string, error)
+//@   requires cache_holds_only_directory_answers: forall e string, g string, a int, n int {lcStored(cacheMap(p.cache.tag, p.cache.pay), e, g, a, n)} :: lcStored(cacheMap(p.cache.tag, p.cache.pay), e, g, a, n) ==> dirAnswered(p.provider.tag, p.provider.pay, e, g, a, n)
+//@   modifies elems(allowedGroups), clock
+//@   let Q = @Join#1
+//@   let hit = @Get#1.1
+//@   ensures [C17] asks_the_cache_this_question: called(@Strings#1) && arg(@Strings#1, 0) == allowedGroups && called(@Join#1) && arg(@Join#1, 0) == allowedGroups && arg(@Join#1, 1) == "," && called(@Get#1) && arg(@Get#1, 0) == old(p.cache) && arg(@Get#1, 1).Email == email && arg(@Get#1, 1).AllowedGroups == Q
+//@   ensures [C17] hit_repeats_the_cached_answer: hit ==> result.1 == nil && arrof(result.0) == arrof(@Get#1.0.ValidGroups) && len(result.0) == len(@Get#1.0.ValidGroups) && !called(@ValidateGroupMembership#1)
+//@   ensures [C17] miss_asks_the_directory_this_question: !hit ==> called(@ValidateGroupMembership#1) && arg(@ValidateGroupMembership#1, 0) == old(p.provider) && arg(@ValidateGroupMembership#1, 1) == email && arg(@ValidateGroupMembership#1, 2) == allowedGroups && arg(@ValidateGroupMembership#1, 3) == accessToken
+//@   ensures [C17] errors_are_not_cached: !hit && @ValidateGroupMembership#1.1 != nil ==> result.1 == @ValidateGroupMembership#1.1 && len(result.0) == 0 && !called(@Set#1)
+//@   ensures [C17] fresh_answer_is_cached_under_this_question: !hit && @ValidateGroupMembership#1.1 == nil ==> result.1 == nil && arrof(result.0) == arrof(@ValidateGroupMembership#1.0) && len(result.0) == len(@ValidateGroupMembership#1.0) && called(@Set#1) && arg(@Set#1, 1).Email == email && arg(@Set#1, 1).AllowedGroups == Q && arrof(arg(@Set#1, 2).ValidGroups) == arrof(result.0) && len(arg(@Set#1, 2).ValidGroups) == len(result.0)
+//@   sink [C17] only_directory_answers_are_cached: Set requires $recv == old(p.cache) && dirAnswered(p.provider.tag, p.provider.pay, $arg0.Email, $arg0.AllowedGroups, arrof($arg1.ValidGroups), len($arg1.ValidGroups))
+//@   ensures [C17] answer_is_the_directorys_for_this_user_and_group_set: result.1 == nil ==> dirAnswered(p.provider.tag, p.provider.pay, email, Q, arrof(result.0), len(result.0))
+
+// ---- C17: membership from the per-group member-set caches (Google, Cognito) ------------------------------------
+//@ interface groups.MemberSetCache.Get(group string) (groups.MemberSet, bool)
+//@   modifies nothing
+//@   ensures forall e string {e in result.0} :: (result.1 && (e in result.0) ==> cachedMember(this.tag, this.pay, group, e)) && (result.1 && !(e in result.0) ==> cachedNonMember(this.tag, this.pay, group, e))
+//@   ensures !result.1 ==> result.0 == nil
+
+//@ interface groups.MemberSetCache.RefreshLoop(group string) bool
+//@   modifies nothing
+
+//@ interface AdminService.CheckMemberships(groups []string, user string) ([]string, error)
+//@   modifies clock
+
+//@ interface AdminService.ListMemberships(group string, depth int) ([]string, error)
+//@   modifies clock
+
+// $miss: ghost counter of member-set cache misses seen by this provider's membership questions.
+//@ type GoogleProvider
+//@   ghost field $miss int
+
+//@ func (p *GoogleProvider) ValidateGroupMembership(email string, allGroups []string, _ string) ([]string, error)
+//@   modifies p.$miss, clock
+//@   let C = old(p.GroupsCache)
+//@   let anyMiss = p.$miss > old(p.$miss)
+//@   ghostat Get#1: p.$miss = p.$miss + (@Get#1.1 ? 0 : 1)
+//@   ensures [C17] empty_question_empty_answer: len(allGroups) == 0 ==> result.1 == nil && len(result.0) == 0 && !called(@CheckMemberships#1)
+//@   ensures [C17] partly_cached_asks_the_directory: len(allGroups) > 0 && anyMiss ==> called(@CheckMemberships#1) && arg(@CheckMemberships#1, 0) == old(p.AdminService) && arg(@CheckMemberships#1, 1) == allGroups && arg(@CheckMemberships#1, 2) == email && arrof(result.0) == arrof(@CheckMemberships#1.0) && len(result.0) == len(@CheckMemberships#1.0) && result.1 == @CheckMemberships#1.1
+//@   ensures [C17] fully_cached_answers_for_this_user: len(allGroups) > 0 && !anyMiss ==> result.1 == nil && !called(@CheckMemberships#1) && (forall j :: 0 <= j && j < len(result.0) ==> cachedMember(C.tag, C.pay, result.0[j], email) && (exists i :: 0 <= i && i < len(allGroups) && allGroups[i] == result.0[j]))
+//@   ensures [C17] fully_cached_lists_every_group_of_the_user: len(allGroups) > 0 && !anyMiss ==> (forall i :: 0 <= i && i < len(allGroups) ==> cachedNonMember(C.tag, C.pay, allGroups[i], email) || (exists j :: 0 <= j && j < len(result.0) && result.0[j] == allGroups[i]))
+//@   loop 1
+//@     invariant p.$miss >= old(p.$miss) && p.GroupsCache == C
+//@     invariant useGroupsResource <==> p.$miss > old(p.$miss)
+//@     invariant len(groups) >= 0
+//@     invariant forall j :: 0 <= j && j < len(groups) ==> cachedMember(C.tag, C.pay, groups[j], email)
+//@     invariant forall j :: 0 <= j && j < len(groups) ==> (exists i :: 0 <= i && i < $i && allGroups[i] == groups[j])
+//@     invariant !useGroupsResource ==> (forall i :: 0 <= i && i < $i ==> cachedNonMember(C.tag, C.pay, allGroups[i], email) || (exists j :: 0 <= j && j < len(groups) && groups[j] == allGroups[i]))
+
+//@ func (p *AmazonCognitoProvider) GetUserProfile(AccessToken string) (*getCognitoUserProfileResponse, error)
+//@   trusted
+//@   modifies clock
+//@   fresh result.0
+//@   ensures result.1 == nil ==> result.0 != nil
+//@   ensures result.1 != nil ==> result.0 == nil
+
+//@ interface CognitoAdminProvider.CheckMemberships(userName string) ([]string, error)
+//@   modifies clock
+
+//@ type AmazonCognitoProvider
+//@   ghost field $miss int
+
+// U: the Cognito username the profile endpoint gave for the access token; D: the directory's list of U's groups.
+//@ func (p *AmazonCognitoProvider) ValidateGroupMembership(email string, allowedGroups []string, accessToken string) ([]string, error)
+//@   modifies p.$miss, clock
+//@   let C = old(p.GroupsCache)
+//@   let U = at(@GetUserProfile#1, @GetUserProfile#1.0.Username)
+//@   let D = @CheckMemberships#1.0
+//@   let anyMiss = p.$miss > old(p.$miss)
+//@   ghostat Get#1: p.$miss = p.$miss + (@Get#1.1 ? 0 : 1)
+//@   ensures [C17] empty_question_empty_answer: len(allowedGroups) == 0 ==> result.1 == nil && len(result.0) == 0 && !called(@CheckMemberships#1)
+//@   ensures [C17] partly_cached_asks_the_directory: result.1 == nil && anyMiss ==> called(@CheckMemberships#1) && arg(@CheckMemberships#1, 0) == old(p.AdminService) && arg(@CheckMemberships#1, 1) == U && @CheckMemberships#1.1 == nil
+//@   ensures [C17] partly_cached_answer_is_the_directorys: result.1 == nil && anyMiss ==> (forall j :: 0 <= j && j < len(result.0) ==> (exists k :: 0 <= k && k < len(D) && D[k] == result.0[j]))
+//@   ensures [C17] fully_cached_answers_for_this_user: result.1 == nil && len(allowedGroups) > 0 && !anyMiss ==> !called(@CheckMemberships#1) && (forall j :: 0 <= j && j < len(result.0) ==> cachedMember(C.tag, C.pay, result.0[j], U))
+//@   ensures [C17] answers_only_about_the_groups_asked: result.1 == nil ==> (forall j :: 0 <= j && j < len(result.0) ==> (exists i :: 0 <= i && i < len(allowedGroups) && allowedGroups[i] == result.0[j]))
+//@   ensures [C17] directory_error_passed_on: called(@CheckMemberships#1) && @CheckMemberships#1.1 != nil ==> result.1 == @CheckMemberships#1.1
+//@   loop 1
+//@     invariant p.$miss >= old(p.$miss) && p.GroupsCache == C && p.AdminService == old(p.AdminService)
+//@     invariant useGroupsResource <==> p.$miss > old(p.$miss)
+//@     invariant len(matchingGroups) >= 0
+//@     invariant forall j :: 0 <= j && j < len(matchingGroups) ==> cachedMember(C.tag, C.pay, matchingGroups[j], U)
+//@     invariant forall j :: 0 <= j && j < len(matchingGroups) ==> (exists i :: 0 <= i && i < $i && allowedGroups[i] == matchingGroups[j])
+//@   loop 2
+//@     invariant len(matchingGroups) >= 0 && p.$miss > old(p.$miss)
+//@     invariant forall j :: 0 <= j && j < len(matchingGroups) ==> (exists k :: 0 <= k && k < len(D) && D[k] == matchingGroups[j])
+//@     invariant forall j :: 0 <= j && j < len(matchingGroups) ==> (exists i :: 0 <= i && i < len(allowedGroups) && allowedGroups[i] == matchingGroups[j])
+//@   loop 3
+//@     invariant len(matchingGroups) >= 0 && p.$miss > old(p.$miss)
+//@     invariant forall j :: 0 <= j && j < len(matchingGroups) ==> (exists k :: 0 <= k && k < len(D) && D[k] == matchingGroups[j])
+//@     invariant forall j :: 0 <= j && j < len(matchingGroups) ==> (exists i :: 0 <= i && i < len(allowedGroups) && allowedGroups[i] == matchingGroups[j])
